@@ -256,6 +256,15 @@ def main(argv=None):
     bounded_results = []
     for b in BOUNDED.get(prop, []):
         w = replay_engine.search_case(b['case'], seed, list(kf_open.keys()))
+        if a.tier == 'thorough' and not w.get('reproduced') and not w.get('note'):
+            # thorough tier: seven more seeds for the seeded generators (hand-written tables repeat; exhaustive enumerations are seed-independent)
+            total = w.get('tried') or 0
+            for extra in range(1, 8):
+                w2 = replay_engine.search_case(b['case'], seed + extra, list(kf_open.keys()))
+                total += w2.get('tried') or 0
+                if w2.get('reproduced') or w2.get('note'):
+                    w = w2; break
+            if not w.get('reproduced'): w['tried'] = total
         rec = dict(b, status='ok', tried=w.get('tried'), samples=w.get('samples', []))
         if w.get('reproduced'):
             rec['status'] = 'violation'
